@@ -285,6 +285,7 @@ func main() {
 	e.scripted(md)
 	e.racePhase(md, rng)
 	e.scalePhase(md, rng)
+	e.fieldPhase(md, rng)
 	replaySeed, replaying := int64(0), false
 	if r.Replay != "" {
 		// replay = the scripted histories plus the one random history named by the witness file
